@@ -89,6 +89,12 @@ def gen(rng, tier):
     for t in ("m/44'/60'/0'/0/17", "m/0", "m/2147483647'/1"):
         for v in substitute(t, 0, "+-_.,xX~\x00 '/mM"):
             add(v, "substituted")
+    from vlib.core import substitute_lookalikes
+    for t in ("m/44'/60'/0'/0/17", "m/9", "m/2147483647'/1"):
+        for v in substitute_lookalikes(t, 2, 4):
+            if "\x00" not in v:
+                add(v, "substituted", "digit-lookalike")
+    look_cases += [c for c in cases if "digit-lookalike" in c.tags]
     cases += routes.add_routes(look_cases, rng, 10 ** 6, "quick")
     # every boundary account index through the command line too (flag or environment)
     bset = set(BOUNDS) | {7, 2 ** 31 - 1, 2 ** 31 - 2}
